@@ -23,6 +23,9 @@ TRUSTED_BASE = [
     "upgrades, RequestInfo resolution (the 'events' flag is an input of the model)",
 ]
 ASSUMPTIONS = [
+    "a response stream cut in the middle (net/http race between the server closing the request body and the outgoing "
+    "transport's last read of it, seen only under CPU starvation) is re-sent by the rig up to 3 times; the last observation "
+    "counts, so a reproducible cut is still reported; such retries are counted in the evidence (label rig:retried)",
     "same path = same segment list (raw path split on literal '/', each segment percent-decoded)",
     "same query = same multimap as url.ParseQuery yields it; pairs Go rejects (bad escapes, ';') are dropped by the "
     "re-encoding and would equally be dropped by a Go upstream, so they are not counted as a change",
@@ -30,6 +33,9 @@ ASSUMPTIONS = [
     "when the client sent none, no Range, not HEAD), Te: trailers, Content-Length/Transfer-Encoding (framing; bodies are "
     "compared by digest and length instead); upstream replies never use Content-Encoding",
     "only the first value of a multi-valued User-Agent is written by net/http; the generator sends at most one",
+    "host bucket.test is limited by a real-time token bucket (burst 1, 1 token/s): whether a request is admitted depends on "
+    "the wall clock, so for this host only the cluster state (limited / admitted) is read off the observation and the "
+    "case is judged by the clauses that apply to what happened; the deterministic 429 path is limited.test (max-in-flight 0)",
     "requests net/http rejects before the chain (control bytes or bad escapes in the target, invalid header names) are "
     "answered 400 by the Go server and only checked for not reaching the upstream",
 ]
@@ -229,8 +235,20 @@ def coq_seen(u):
                                         L.coq_headers(u["headers"]), cstr(_digest(u["body_sha"], u["body_len"])))
 
 
+def cluster_of(case, obs):
+    """Cluster state of the case. bucket.test is limited by a REAL token bucket (burst 1, 1 token/s, primed by the rig
+    immediately before the case's request): whether the request finds the bucket empty depends on the wall clock, so
+    for this one host the state is read off the observation -- upstream saw nothing => flow-limited (judged by the
+    termination clauses), upstream saw the request => admitted (judged by the fidelity clauses).  The deterministic
+    429 path is limited.test (max-in-flight 0), which is never decided from the observation."""
+    c = HOSTS.get(case["host"], "CUnknown")
+    if case["host"] == "bucket.test" and not L.panic_obs(obs) and obs.get("upstream"):
+        return "COk"
+    return c
+
+
 def coq_case(case, obs):
-    cluster = HOSTS.get(case["host"], "CUnknown")
+    cluster = cluster_of(case, obs)
     bad = L.panic_obs(obs)
     reached = (not bad) and bool(obs.get("reached")) and obs.get("gw_in") is not None
     h_in = L.coq_headers(obs["gw_in"]["headers"]) if reached else L.coq_kv_headers(case["headers"])
@@ -299,13 +317,17 @@ def nontrivial_key(case, obs):
 
 
 def stats(case, obs):
-    labs = ["method:" + case["method"], "cluster:" + HOSTS.get(case["host"], "?")] + _features(case)
+    labs = ["method:" + case["method"], "cluster:" + cluster_of(case, obs)] + _features(case)
+    if case["host"] == "bucket.test":
+        labs.append("bucket.test:" + ("admitted(refilled)" if cluster_of(case, obs) == "COk" else "limited"))
     n = case["body"]["len"]
     labs.append("body:%s" % ("0" if n == 0 else "<=4KiB" if n <= 4096 else "<=64KiB"))
     if case["chunked"]:
         labs.append("body:chunked")
     if L.panic_obs(obs):
         return labs + ["outcome:panic"]
+    if obs.get("retries"):
+        labs.append("rig:retried")
     if not obs.get("reached"):
         return labs + ["outcome:rejected-by-net/http"]
     if obs.get("upstream"):
